@@ -83,7 +83,7 @@ def h2_session(rng, rare=False):
     for _ in range(rng.choice([1, 2, 4])):
         kind = rng.choice(["get", "post", "connect-nopath", "nonascii-path", "priority-first", "rst", "window-closed", "data-after-end",
                            "padded", "trailers", "continuation", "websocket", "websocket-nonascii", "priority-closed", "nonascii-method",
-                           "nonascii-header"]) if rare else rng.choice(["get", "post"])
+                           "nonascii-header", "priority-flood"]) if rare else rng.choice(["get", "post"])
         try:
             if kind == "get":
                 c.send_headers(sid, [(b":method", b"GET"), (b":path", b"/x?y=1"), (b":scheme", b"https"), (b":authority", b"a")],
@@ -142,6 +142,22 @@ def h2_session(rng, rare=False):
                 c.send_headers(sid, [(b":method", b"CONNECT"), (b":protocol", b"websocket"), (b":scheme", b"https"), (b":path", b"/ws"),
                                      (b":authority", b"a"), (b"sec-websocket-version", b"13")])
                 c.send_data(sid, rng.choice([b"\x81\x85\x01\x02\x03\x04ielmn", b"\xff\xff\xff", b"\x88\x80\x00\x00\x00\x00"]))
+            elif kind == "priority-flood":
+                # PRIORITY frames for a thousand idle streams fill the server's priority tree; then a PRIORITY naming a parent
+                # nobody has heard of (the tree would have to take it in), and a request that finds no room (F60)
+                fl = []
+                for k in range(1001):
+                    f = PriorityFrame(20001 + 2 * k)
+                    f.depends_on = 0
+                    f.stream_weight = 15
+                    fl.append(f.serialize())
+                f = PriorityFrame(rng.choice([1, sid, 20001]))
+                f.depends_on = 90001
+                f.stream_weight = 15
+                fl.append(f.serialize())
+                out.append(b"".join(fl))
+                c.send_headers(sid, [(b":method", b"GET"), (b":path", b"/crowded"), (b":scheme", b"https"), (b":authority", b"a")],
+                               end_stream=True)
             elif kind == "priority-closed":
                 c.send_headers(sid, base, end_stream=True)
                 c.reset_stream(sid)
